@@ -214,6 +214,15 @@ fn main() {
                 all_cases(&mut out, &s, Some((&mut r2, k)), s.len() <= 16, false);
             }
         }
+        // which state is the tree in?  K2 witness: "\nab\ncd" span 0..2 renders the continued line raw
+        // (as shipped) or visualised (fixes/C10-1-continued-line-visualize.patch)
+        "probe" => {
+            let s = "\nab\ncd";
+            let r = catch(|| format!("{}", Error::<Rule>::new_from_span(ErrorVariant::CustomError { message: MSG.to_string() }, Span::new(s, 0, 2).unwrap())));
+            let fixed = match r { Ok(o) => !o.contains("ab\n\n") && o.contains("ab\u{240a}\n"), Err(_) => false };
+            println!("#PROBE\tfix_continued={}", if fixed { 1 } else { 0 });
+            return;
+        }
         // every case of one (escaped) string
         "one" => { let s = unesc(&arg(2)); all_cases(&mut out, &s, None, true, s.chars().count() <= 3); }
         // a single case line
